@@ -11,6 +11,8 @@ import Mathlib.Tactic.Linarith
 import Mathlib.Tactic.NormNum
 import Mathlib.Tactic.Positivity
 import Mathlib.Algebra.Order.Field.Basic
+set_option linter.unusedSectionVars false
+set_option linter.unusedVariables false
 namespace Mahotas.C18
 open Mahotas
 
@@ -163,5 +165,124 @@ theorem partition5 {fl : K → Int} (h : IsFloor fl) (x : K) : (weights fl 5 x).
   · rw [← ht]; norm_num [splineCoeff, absV, q]
   · obtain ⟨p0, p1, p2, p3, p4, p5⟩ := w5 (x - (i : K)) ht (by linarith)
     rw [p0, p1, p2, p3, p4, p5]; ring
+
+/-! ### integer coordinates, order 1 -/
+
+theorem roundI_int {fl : K → Int} (h : IsFloor fl) (n : Int) : roundI fl (n : K) = n := by
+  unfold roundI
+  rw [q_half]
+  split_ifs
+  · exact h.int_half n
+  · have e : -((n : K) - 1 / 2) = ((-n : Int) : K) + 1 / 2 := by push_cast; ring
+    rw [e, h.int_half]; omega
+
+/-- what `zoom_shift` does with a coordinate that is an integer `n`: inside the array it is kept, outside
+    it is sent through `fix_offset` -/
+theorem mapCoord_int {fl : K → Int} (h : IsFloor fl) (m : Mode) (len : Nat) (n : Int) :
+    mapCoord fl m len (n : K) =
+      if 0 ≤ n ∧ n ≤ (len : Int) - 1 then some (n : K)
+      else (fixOffset m n len).map (fun (i : Int) => (i : K)) := by
+  unfold mapCoord
+  rw [roundI_int h]
+  by_cases c : 0 ≤ n ∧ n ≤ (len : Int) - 1
+  · have c1 : ¬ ((n : K) < ((0 : Nat) : K) ∨ ((((len : Int) - 1 : Int)) : K) < (n : K)) := by
+      rw [Nat.cast_zero, ← Int.cast_zero, Int.cast_lt, Int.cast_lt]; omega
+    simp only [c1, c, and_self, if_true, if_false]
+  · have c1 : ((n : K) < ((0 : Nat) : K) ∨ ((((len : Int) - 1 : Int)) : K) < (n : K)) := by
+      rw [Nat.cast_zero, ← Int.cast_zero, Int.cast_lt, Int.cast_lt]; omega
+    simp only [c1, c, if_true, if_false]
+    cases fixOffset m n len <;> rfl
+
+theorem edgeFold_inside (len : Nat) (j : Int) (h0 : 0 ≤ j) (h1 : j < len) : edgeFold len j = j := by
+  have a : ¬ j < 0 := by omega
+  have b : ¬ j ≥ (len : Int) := by omega
+  simp [edgeFold, fixOffset, a, b]
+
+/-- order 1 at an integer coordinate: the weights are `(1, 0)` and the first knot is the coordinate -/
+theorem axisEntry_int1 {fl : K → Int} (h : IsFloor fl) (len : Nat) (j : Int) :
+    startIdx fl 1 (j : K) = j ∧ weights fl 1 (j : K) = [1, 0] := by
+  constructor
+  · simp [startIdx, h.int]
+  · rw [partition1 h, h.int]; simp
+
+/-- the accumulation of `zoom_shift` along one axis with weights `(1, 0)` returns the first knot's sample -/
+theorem tensorSum_delta1 (sample : List Int → K) (i j : Int) :
+    tensorSum ((0 : Nat) : K) sample [([i, j], [1, 0])] = sample [i] := by
+  simp [tensorSum, tensorTerms]
+
+/-- order-1 accumulation along one axis: `(1−t)·f[i] + t·f[j]` -/
+theorem tensorSum_linear1 (sample : List Int → K) (i j : Int) (t : K) :
+    tensorSum ((0 : Nat) : K) sample [([i, j], [1 - t, t])] = (1 - t) * sample [i] + t * sample [j] := by
+  simp [tensorSum, tensorTerms]; ring
+
+/-! ### n-D: weights `(1, 0)` on every axis select the first knot on every axis -/
+
+theorem foldl_mul_zero (ws : List K) : ws.foldl (· * ·) (0 : K) = 0 := by
+  induction ws with
+  | nil => rfl
+  | cons w ws ih => simp [List.foldl_cons, ih]
+
+theorem foldl_add_const (l : List (List Int × List K)) (z : K) (F : List Int × List K → K)
+    (hF : ∀ pw ∈ l, F pw = 0) : l.foldl (fun t pw => t + F pw) z = z := by
+  induction l generalizing z with
+  | nil => rfl
+  | cons a l ih =>
+    simp only [List.foldl_cons]
+    rw [hF a (by simp), add_zero]
+    exact ih z (fun pw hp => hF pw (by simp [hp]))
+
+/-- generalised accumulation: every term starts from `g p` instead of the sample, prefix `pre` -/
+theorem tensor_delta_aux (entries : List (Int × Int)) (g : List Int → K) (z : K) :
+    (tensorTerms (entries.map fun ij => ([ij.1, ij.2], [(1 : K), 0]))).foldl
+        (fun t pw => t + pw.2.foldl (· * ·) (g pw.1)) z
+      = z + g (entries.map fun ij => ij.1) := by
+  induction entries generalizing g z with
+  | nil => simp [tensorTerms]
+  | cons e es ih =>
+    simp only [List.map_cons, tensorTerms, List.zip_cons_cons, List.zip_nil_right, List.flatMap_cons,
+      List.flatMap_nil, List.append_nil, List.foldl_append, List.foldl_map, List.foldl_cons, mul_one, mul_zero]
+    have h1 := ih (fun p => g (e.1 :: p)) z
+    rw [h1]
+    have h2 : ∀ z' : K, (tensorTerms (es.map fun ij => ([ij.1, ij.2], [(1 : K), 0]))).foldl
+        (fun t pw => t + pw.2.foldl (· * ·) (0 : K)) z' = z' := by
+      intro z'
+      exact foldl_add_const _ z' _ (fun pw _ => foldl_mul_zero pw.2)
+    exact h2 _
+
+theorem tensorSum_delta (sample : List Int → K) (entries : List (Int × Int)) :
+    tensorSum ((0 : Nat) : K) sample (entries.map fun ij => ([ij.1, ij.2], [(1 : K), 0]))
+      = sample (entries.map fun ij => ij.1) := by
+  unfold tensorSum
+  rw [tensor_delta_aux entries sample]
+  simp
+
+/-! ### zoom: corners and unit factor -/
+
+theorem zoomFactor_corner (nin nout : Nat) (h : 2 ≤ nout) :
+    coord (nout - 1) none (some (zoomFactor nin nout : K)) = (((nin : Int) - 1 : Int) : K) := by
+  have hne : nout ≠ 1 := by omega
+  have hpos : (((nout : Int) - 1 : Int) : K) ≠ 0 := by
+    have : ((nout : Int) - 1 : Int) ≠ 0 := by omega
+    exact_mod_cast this
+  have e : (((nout - 1 : Nat)) : K) = (((nout : Int) - 1 : Int) : K) := by
+    have : ((nout - 1 : Nat) : Int) = (nout : Int) - 1 := by omega
+    rw [← this]; simp
+  simp only [coord, zoomFactor, hne, if_false, e]
+  field_simp
+
+theorem zoomFactor_origin (z : K) : coord 0 none (some z) = 0 := by
+  simp [coord]
+
+theorem zoomFactor_unit (n : Nat) (kk : Nat) :
+    coord kk none (some (zoomFactor n n : K)) = (kk : K) := by
+  by_cases h : n = 1
+  · simp [coord, zoomFactor, h]
+  · have hn : ((n : Int) - 1 : Int) ≠ 0 ∨ n = 0 := by omega
+    rcases hn with hn | hn
+    · have hpos : (((n : Int) - 1 : Int) : K) ≠ 0 := by exact_mod_cast hn
+      simp only [coord, zoomFactor, h, if_false]
+      field_simp
+    · subst hn
+      simp [coord, zoomFactor]
 
 end Mahotas.C18
